@@ -3,6 +3,7 @@ import Driver.Map
 import Driver.Read
 import Driver.Cache
 import Driver.Walk
+import Driver.Pfn
 
 def main (args : List String) : IO UInt32 := do
   let stdin ← IO.getStdin
@@ -12,4 +13,5 @@ def main (args : List String) : IO UInt32 := do
   | ["read"] => Driver.Read.run stdin; return 0
   | ["cache"] => Driver.Cache.run stdin; return 0
   | ["walk"] => Driver.Walk.run stdin; return 0
+  | ["pfn"] => Driver.Pfn.run stdin; return 0
   | _ => IO.eprintln "usage: kdfdrv <stream>"; return 2
